@@ -195,15 +195,12 @@ def RSeg.upper (s : RSeg) : Option Rat := if s.maxLim < channelMax then some s.m
 def gapOf (o : ROpts) (sepDist : Rat) (prev cur : RSeg) : Rat × Bool :=
   if shouldAlignWith o cur prev then (0, true)
   else if canAlignWith cur prev then (0, false)
-  else if !o.nudgeCommonEnd && o.commonEnd cur.conn prev.conn then (0, true)
+  else if !o.nudgeCommonEnd && decide (cur.conn ≠ prev.conn) && o.commonEnd cur.conn prev.conn then (0, true)
   else (sepDist, false)
 
-/-- `UnsignedPair(cur.id, prev.id)` asserts the ids differ; reached only in the third branch -/
-def gapOfPre (o : ROpts) (prev cur : RSeg) : Bool :=
-  if shouldAlignWith o cur prev then true
-  else if canAlignWith cur prev then true
-  else if !o.nudgeCommonEnd then decide (cur.conn ≠ prev.conn)
-  else true
+/-- `UnsignedPair(cur.id, prev.id)` asserts the ids differ; since /repo eb4b954 the lookup is guarded by
+    `currSegment->connRef != prevSeg->connRef`, so the assertion cannot fail any more -/
+def gapOfPre (_o : ROpts) (_prev _cur : RSeg) : Bool := true
 
 def regionP (o : ROpts) (sepDist : Rat) : GenP RSeg :=
   ⟨overlapsWith o, gapOf o sepDist, RSeg.fixed, RSeg.lower, RSeg.upper⟩
